@@ -35,14 +35,14 @@ func scenariosC02() []*scenario {
 			{[][]string{{"a", "P+1"}, {"c"}}, nil},                 // driver-only rounds with faults/crashes after the ack
 		}
 		for i, s := range shapes {
-			out = append(out, &scenario{name: fmt.Sprintf("c02/s%d/h%d", s0, i), base: s0, opt: crashOpts(), bound: bound, rounds: s.rounds, subs: s.subs})
+			out = append(out, &scenario{name: fmt.Sprintf("c02/s%d/h%d", s0, i), base: s0, opt: crashOpts(), bound: bound, rounds: s.rounds, subs: s.subs, uploadsInOrder: len(s.subs) > 0})
 		}
 	}
 	// bounded pool: a high-priority submission evicts a pending low-priority one
 	// ("~" = low priority); every acknowledgement must still name the right index
 	for _, s0 := range []int64{0, 255} {
 		out = append(out, &scenario{name: fmt.Sprintf("c02/s%d/evict", s0), base: s0, opt: options{faults: true}, bound: 1, poolSize: 2,
-			rounds: [][]string{{}, {}}, subs: [][]string{{"~a"}, {"b"}, {"c"}}})
+			rounds: [][]string{{}, {}}, subs: [][]string{{"~a"}, {"b"}, {"c"}}, uploadsInOrder: true})
 	}
 	return out
 }
@@ -106,13 +106,16 @@ func scenariosC04() []*scenario {
 			}
 		}
 	}
+	// parseable certificates (names-tile lines) on both sides of a tile boundary, with a failed round in between
+	out = append(out, &scenario{name: "c04/s254/names-across-boundary", base: 254, opt: options{faults: true}, bound: 1,
+		rounds: [][]string{{"X1"}, {"b", "X2"}, {"c"}}, checkC04: true, uploadsInOrder: true})
 	// crash/restart combined with clock anomalies: leaf timestamps must never exceed a later tree head's
 	out = append(out, &scenario{name: "c04/s0/clock", base: 0, opt: allOpts(), bound: 2, rounds: [][]string{{"a", "b"}, {"c"}}, checkC04: true})
 	// concurrent submitters sharing a new issuer, racing with the rounds
 	for _, s0 := range []int64{0, 255} {
 		o := options{faults: true}
 		out = append(out, &scenario{name: fmt.Sprintf("c04/s%d/shared-issuer", s0), base: s0, opt: o, bound: 2,
-			rounds: [][]string{{}, {}}, subs: [][]string{{"a+1"}, {"b+1"}}, checkC04: true})
+			rounds: [][]string{{}, {}}, subs: [][]string{{"a+1"}, {"b+1"}}, checkC04: true, uploadsInOrder: true})
 	}
 	return out
 }
